@@ -295,3 +295,30 @@ func VerifHarness_C10_Extension() {
 func VerifHarness_C10_WhereExists() { verifWhereCriteria() }
 
 func VerifHarness_C10_All() { verifAllCriteria() }
+
+// intersect(d) of an input that repeats its items: three or four input items over two or three distinct small Integers
+// against two argument items - the shape in which "as many matches as the argument has items" is reached by repeats
+// before a later, different member of the intersection is seen.
+func VerifHarness_C10_IntersectOfRepeatedItems() {
+	n := 3 + verifrt.Choose("n", 2)
+	var input, other system.Collection
+	for i := 0; i < n; i++ {
+		input = append(input, system.Integer(verifrt.NondetIntRange("it", 0, 2)))
+	}
+	for i := 0; i < 2; i++ {
+		other = append(other, system.Integer(verifrt.NondetIntRange("ot", 0, 2)))
+	}
+	got, err := Intersect(verifCtx(), input, verifConst(other))
+	var want system.Collection
+	for _, v := range input {
+		if verifContains(other, v) && !verifContains(want, v) {
+			want = append(want, v)
+		}
+	}
+	ok := err == nil && len(got) == len(want)
+	for i := 0; ok && i < len(got); i++ {
+		ok = got[i] != nil && verifEq(got[i], want[i])
+	}
+	verifrt.Assert(ok, "intersect-is-duplicate-free-common-items")
+	verifrt.Reach("end")
+}
